@@ -15,7 +15,8 @@
     its rows; jobs replayed from a call node take their subtree tasks from the backend) satisfies
     it for all histories.  translate/tr_record.py decides which configuration the code is in. *)
 From Coq Require Import List Arith Bool.
-From RV Require Import Model.Recording Proofs.RecordingBase Proofs.RecordingGen Proofs.RecordingSub Proofs.RecordingWitness.
+From RV Require Import Model.Recording Proofs.RecordingBase Proofs.RecordingGen Proofs.RecordingSub Proofs.RecordingWitness
+  Proofs.RecordingMixed.
 Import ListNotations.
 Open Scope list_scope.
 
@@ -56,6 +57,25 @@ Theorem C03_refuted_cse : exists c, shallow_hit (shipped 3) (run (shipped 3) h_c
   ~ incl (tasks_of c) [3; 4; 5; 6].
 Proof. exact (stale_spec _ _ _ _ _ w_cse). Qed.
 
+(** Configuration [mixed] (the lookup requires the node's own task, replayed jobs inherit the recorded
+    subtree tasks, record_call_node as shipped): sound for every history in which no job is replayed
+    by CSE ... *)
+Theorem C03_shallow_hit_sound_mixed_partial : forall R es, forallb (fun e => negb (is_cse e)) es = true ->
+  forall t a rg c, shallow_hit (mixed R) (run (mixed R) es) t a rg = Some c ->
+  In c (nodes (com (run (mixed R) es))) /\ t_task c = t /\ t_args c = a /\ incl (tasks_of c) rg.
+Proof. exact shallow_hit_sound_mixed_nocse. Qed.
+(** ... the four witnesses above no longer apply ... *)
+Theorem C03_mixed_old_witnesses_closed :
+  stale (mixed 3) h_retry 1 [10] [1; 3] = false /\ stale (mixed 3) h_crash 1 [10] [1; 3] = false /\
+  stale (mixed 3) h_import 1 [10] [1; 3] = false /\ stale (mixed 3) h_cse 5 [10] [3; 4; 5; 6] = false /\
+  shallow_hit (mixed 3) (run (mixed 3) h_cse) 5 [10] [2; 4; 5; 6] = Some pc.
+Proof. exact mixed_old_witnesses. Qed.
+(** ... but the full property is still refuted: rows lost by a retried record_call_node(mid), then a
+    job replayed by CSE from mid's call node inherits nothing, and its shallow parent is stale. *)
+Theorem C03_refuted_mixed : exists c, shallow_hit (mixed 3) (run (mixed 3) h_mixed) 5 [10] [3; 4; 5; 6] = Some c /\
+  ~ incl (tasks_of c) [3; 4; 5; 6].
+Proof. exact (stale_spec _ _ _ _ _ (proj1 w_mixed)). Qed.
+
 (** Non-vacuity: in the repaired variant the witness histories give no stale hit, and the hit is
     still taken when nothing was edited. *)
 Example C03_nonvacuous :
@@ -72,3 +92,5 @@ Print Assumptions C03_refuted_retry.
 Print Assumptions C03_refuted_crash.
 Print Assumptions C03_refuted_import.
 Print Assumptions C03_refuted_cse.
+Print Assumptions C03_shallow_hit_sound_mixed_partial.
+Print Assumptions C03_refuted_mixed.
